@@ -134,6 +134,7 @@ func TestSmallCommitteeAllSubsets(t *testing.T) {
 		evid.EvalN(n)
 		if c.hasPools() || c.hasDiscr() {
 			evid.NonTrivial(fmt.Sprintf("subsets|%s|%x|%d|%d", c.key(), c.seed, c.round, step))
+			evid.Sample("subsets", fmt.Sprintf("subsets|%s|%x|%d|%d", c.key(), c.seed, c.round, step))
 		}
 	})
 }
@@ -162,6 +163,7 @@ func TestCommitteeDeterminism(t *testing.T) {
 				}
 				if c.nonTrivial() {
 					evid.NonTrivial(fmt.Sprintf("committee|%s|%x|%d|%d", c.key(), c.seed, c.round, step))
+					evid.Sample("committee", fmt.Sprintf("committee|%s|%x|%d|%d", c.key(), c.seed, c.round, step))
 				}
 			}
 		}
